@@ -1,6 +1,7 @@
 (* The flows the servers use (generated table MTXGen.C03_Flows) are all well-formed; lifted through flow_sound. *)
 From Coq Require Import List ZArith Bool String.
-Require Import MTX.Model.C14_PathConf MTX.Model.C03_Auth MTX.Proofs.C03_Auth MTXGen.C03_Flows.
+Require Import MTX.Model.C14_PathConf MTX.Model.C03_Auth MTX.Model.C03_Origin MTX.Proofs.C03_Auth MTX.Proofs.C03_Origin
+               MTXGen.C03_Flows.
 Import ListNotations.
 Local Open Scope string_scope.
 
@@ -63,3 +64,69 @@ Lemma table_covers :
   has "internal/servers/rtsp/" KDescribe = true /\
   In ("internal/servers/rtmp/conn.go:runPublish:AddPublisher", FTwoStep KPublisher true true true true) sites.
 Proof. vm_compute. repeat split. tauto. Qed.
+
+(* ---- requester identity: which expression supplies AccessRequest.IP at the authenticating call of every site ---- *)
+
+Fixpoint assoc_str {A : Type} (l : list (string * A)) (k : string) : option A :=
+  match l with
+  | [] => None
+  | (k', v) :: r => if String.eqb k' k then Some v else assoc_str r k
+  end.
+
+(* the call of a site's flow that authenticates: the FindPathConf of a two-step flow, else the call itself *)
+Definition auth_site (sf : string * flow) : string :=
+  match snd sf with
+  | FTwoStep _ _ _ _ _ => match assoc_str first_steps (fst sf) with Some f => f | None => "" end
+  | _ => fst sf
+  end.
+
+Definition ident_of (sf : string * flow) : option (carrier * ipsrc) := assoc_str ident_sites (auth_site sf).
+
+Definition ident_site_ok (sf : string * flow) : bool :=
+  mem_str (fst sf) exempt || match ident_of sf with Some (c, s) => ip_ok c s | None => false end.
+
+Definition carrier_eqb (a b : carrier) : bool :=
+  match a, b with CHttp, CHttp | CTcp, CTcp | CDirect, CDirect => true | _, _ => false end.
+
+(* the carrier the translator must find for the sites of each server (a site classified under another carrier
+   would be held to the wrong source) *)
+Definition expected_carrier (id : string) : option carrier :=
+  if String.prefix "internal/servers/hls/" id || String.prefix "internal/servers/webrtc/" id
+     || String.prefix "internal/servers/moq/http_server.go" id then Some CHttp
+  else if String.prefix "internal/servers/rtsp/" id || String.prefix "internal/servers/rtmp/" id then Some CTcp
+  else if String.prefix "internal/servers/srt/" id || String.prefix "internal/servers/moq/session.go" id then Some CDirect
+  else None.
+
+Definition carrier_as_expected (x : string * (carrier * ipsrc)) : bool :=
+  match expected_carrier (fst x) with Some c => carrier_eqb c (fst (snd x)) | None => false end.
+
+Lemma ident_ok :
+  forallb ident_site_ok sites = true /\
+  forallb (fun x => ip_ok (fst (snd x)) (snd (snd x))) ident_sites = true /\
+  forallb carrier_as_expected ident_sites = true.
+Proof. vm_compute. repeat split. Qed.
+
+(* hence, for every non-exempt call site of the current source, with the wire request w feeding its authenticating
+   call: what gets attached was admitted for the address of the host the request is attributable to *)
+Theorem servers_origin_sound (Cr : Type) (m : str -> str -> option (list str)) (auth : bool -> str -> Cr -> list Z -> bool)
+        site f car src (e : env Cr (list Z)) cs0 rl k n tr parse other w who :
+  In (site, f) sites -> ~ In site exempt ->
+  ident_of (site, f) = Some (car, src) ->
+  attributable car tr parse w who ->
+  e_ip1 e = site_ip car src tr parse other w ->
+  In (Attached k n) (flow_events m auth f e cs0 rl) ->
+  n = e_n1 e /\ auth (kind_publish k) n (e_cr1 e) who = true.
+Proof.
+  intros Hin Hnex Hid Hat He Hatt.
+  destruct flows_ok as [Hall _]. destruct ident_ok as [Hidall _].
+  rewrite forallb_forall in Hall, Hidall. specialize (Hall _ Hin). specialize (Hidall _ Hin).
+  unfold site_ok in Hall. unfold ident_site_ok in Hidall. cbn [fst snd] in Hall, Hidall.
+  assert (Hne : mem_str site exempt = false).
+  { destruct (mem_str site exempt) eqn:E; [|reflexivity]. exfalso. apply Hnex. apply mem_str_In. exact E. }
+  rewrite Hne, orb_false_r in Hall. rewrite Hne, Hid in Hidall. cbn [orb] in Hidall.
+  eapply origin_flow_sound; eassumption.
+Qed.
+
+(* every non-exempt site has an identity row (the premise of servers_origin_sound is never vacuous) *)
+Lemma ident_total : forallb (fun sf => mem_str (fst sf) exempt || match ident_of sf with Some _ => true | None => false end) sites = true.
+Proof. vm_compute. reflexivity. Qed.
